@@ -12,7 +12,7 @@ from ..utils import exceptions as exc
 from ..utils.compat import (ForwardRef, Literal, Self, evaluate_forward_ref,
                             get_args, get_origin, UnionType)
 from ..utils.datastructures import unprovided
-from ..utils.functional import multi, pop
+from ..utils.functional import copy_value, multi, pop
 from ..utils.transform import TypeTransformer
 from ..settings import warning_settings
 from .options import RuntimeContext
@@ -991,11 +991,12 @@ class Constraints:
                 pass
             else:
                 raise ValueError
-        return v
+        # (a mutable constant is not handed out itself: the result belongs to the caller)
+        return copy_value(v)
 
     @classmethod
     def lax_const(cls, value, v):
-        return v
+        return copy_value(v)
 
     @classmethod
     def enum(cls, value, lst):
